@@ -1,5 +1,6 @@
 import Chess.Lemmas.San
 import Chess.Lemmas.SanBoard
+import Chess.Lemmas.LegalJoin
 /-! # C14 — short algebraic notation identifies every legal move uniquely, in standard form (M1 level)
 
 Property text: "short algebraic notation identifies every legal move uniquely, in standard form … PGN-standard
@@ -268,4 +269,14 @@ example :
   · intro s₁ s₂ h; simp [Board.new] at h
   · intro s h; simp [Board.new] at h
 
+end Chess
+
+namespace Chess
+open Board
+/-- C14 closed with C03: on every valid board, equal SAN texts of legal moves mean equal moves -/
+theorem C14_injective_valid (K : Keys) (b : Board) (hv : b.Valid K) (m₁ m₂ : Move) (p₁ p₂ : MoveProps)
+    (h₁ : b.moveProps K m₁ = .ok p₁) (h₂ : b.moveProps K m₂ = .ok p₂) (ht : sanText m₁ p₁ = sanText m₂ p₂) : m₁ = m₂ :=
+  C14_injective_core K b m₁ m₂ p₁ p₂ h₁ h₂
+    (fun pt s d h => (hv.isLegalMove_iff _ (by intro _ _ _ e; cases e)).1 h)
+    (king_unique_of_valid hv) (own_occ_of_cons hv.cons) ht
 end Chess
